@@ -1,10 +1,13 @@
 (** C14 - Bundled client and server interoperate.  Pinned statements only.  "Interoperate" is
     proved over loss-free FIFO channels: each side's loop is shown to complete against the
-    other side's loss-free behaviour (the blocks of the file in order / the ACK of every window);
-    that the two behaviours are each other's outputs is established by C01 / C02 and observed
-    by the CLI and W-PAIR suites, real loopback losses for very large windows are outside (D8). *)
+    other side's loss-free behaviour (the blocks of the file in order / the ACK of every window),
+    and the two loops are composed into one closed system ([C14_both_loops_complete_together]:
+    a sending and a receiving worker with the same block and window size, joined by FIFO
+    channels, both end in success with the receiver holding exactly the file - any file, any
+    sizes; duplicate-packets mode off).  Real loopback losses for very large windows are outside (D8). *)
 From Tftp Require Import Base.Prelude Model.Types Model.Consts Model.Codec Model.Window Model.Worker Model.Spec
-  Model.Server Model.Client Proofs.SpecP Proofs.SendP Proofs.RecvP Proofs.ServerP Proofs.NetP Proofs.ClientP.
+  Model.Server Model.Client Proofs.SpecP Proofs.SendP Proofs.RecvP Proofs.ServerP Proofs.NetP Proofs.ClientP
+  Model.Net Proofs.CosimLive.
 Local Open Scope N_scope.
 
 (** Every valid option choice of the client (blksize 8..65464, windowsize 1..65535, timeout
@@ -70,6 +73,16 @@ Example C14_ex_names :
   /\ valid_choice 65464 65535 255 /\ valid_choice 8 1 1.
 Proof. repeat split; vm_compute; try reflexivity; discriminate. Qed.
 
+(** The data phase as one closed system: the sender's output is the receiver's input and vice
+    versa (download: server sends, client receives; upload: the other way round). *)
+Theorem C14_both_loops_complete_together : forall sc rc F,
+  wf_params (s_blk sc) (s_ws sc) -> r_blk rc = s_blk sc -> r_ws rc = s_ws sc -> s_check sc = false ->
+  s_fails sc = [] -> r_fails rc = [] -> s_rep sc = 1 -> r_rep rc = 1 -> 0 < s_tmo sc ->
+  exists fuel, let p := pair_run sc rc [] [] fuel (pair_init sc rc [] F) in
+    r_phase (p_r p) = RDone OutOk /\ written_bytes (w_file (r_w (p_r p))) = F /\ s_phase (p_s p) = SDone OutOk.
+Proof. exact cosim_perfect. Qed.
+
+Print Assumptions C14_both_loops_complete_together.
 Print Assumptions C14_interop_download.
 Print Assumptions C14_interop_upload.
 Print Assumptions C14_server_echoes_client_options.
